@@ -19,8 +19,8 @@ pub enum BLine { Exp(String), Code(String) }
 #[derive(Clone)]
 pub enum Elem {
     Front(usize), Prose(String), Heading(usize, String), Blank,
-    Foreign(usize, String, Vec<String>),
-    Scrut { n: usize, cfg: Option<usize>, comments: Vec<String>, cmd: Option<(String, Vec<String>, Vec<BLine>)> },
+    Foreign(usize, String, Vec<String>, String),
+    Scrut { n: usize, cfg: Option<usize>, comments: Vec<String>, cmd: Option<(String, Vec<String>, Vec<BLine>)>, tail: String },
 }
 
 fn word(r: &mut Rng) -> String { r.pick(&["foo", "bar baz", "é ü", "x", "a  b", "hello world", "Straße", "日本", "Title here"]).to_string() }
@@ -45,6 +45,10 @@ fn body_line(r: &mut Rng, first: bool, n: usize) -> BLine {
         return BLine::Exp(e);
     }
 }
+/// what follows the N backticks of a closing fence: usually nothing; a longer fence, blanks or text also close the block
+fn close_tail(r: &mut Rng) -> String {
+    if r.chance(4, 5) { String::new() } else { r.pick(&["`", "``", " ", "  \t", "json", "` x", " trailing text", "scrut"]).to_string() }
+}
 pub fn gen_doc(r: &mut Rng) -> Vec<Elem> {
     let mut d = vec![];
     if r.chance(1, 4) { d.push(Elem::Front(r.below(FRONTS.len() as u64) as usize)); }
@@ -60,7 +64,7 @@ pub fn gen_doc(r: &mut Rng) -> Vec<Elem> {
                    for _ in 0..k { body.push(prose(r)); }
                    if r.chance(1, 4) { body.push("$ echo not a test".to_string()); body.push("```scrut".to_string()); }
                    let body: Vec<String> = body.into_iter().filter(|l| !l.starts_with(&"`".repeat(n))).collect();
-                   d.push(Elem::Foreign(n, lang, body)); }
+                   d.push(Elem::Foreign(n, lang, body, close_tail(r))); }
             _ => {
                 let nb = if r.chance(1, 5) { r.range(4, 5) } else { 3 };
                 let cfg = if r.chance(1, 4) { Some(r.below(CFGS.len() as u64) as usize) } else { None };
@@ -71,7 +75,8 @@ pub fn gen_doc(r: &mut Rng) -> Vec<Elem> {
                     let k = r.range(0, 4); let mut body = vec![]; let mut has_code = false;
                     for i in 0..k { if !has_code && r.chance(1, 5) { has_code = true; body.push(BLine::Code(r.pick(&["0", "1", "3", "007", "255"]).to_string())); } else { body.push(body_line(r, i == 0, nb)); } }
                     Some((c, conts, body)) };
-                d.push(Elem::Scrut { n: nb, cfg, comments, cmd });
+                let tail = close_tail(r);
+                d.push(Elem::Scrut { n: nb, cfg, comments, cmd, tail });
             }
         }
     }
@@ -83,8 +88,8 @@ pub fn render(d: &[Elem]) -> Vec<String> {
         match e {
             Elem::Front(i) => { out.push("---".into()); for l in FRONTS[*i] { out.push(l.to_string()); } out.push("---".into()); }
             Elem::Prose(p) => out.push(p.clone()), Elem::Heading(k, t) => out.push(format!("{} {}", "#".repeat(*k), t)), Elem::Blank => out.push(String::new()),
-            Elem::Foreign(n, lang, body) => { out.push(format!("{}{}", "`".repeat(*n), lang)); for l in body { out.push(l.clone()); } out.push("`".repeat(*n)); }
-            Elem::Scrut { n, cfg, comments, cmd } => {
+            Elem::Foreign(n, lang, body, tail) => { out.push(format!("{}{}", "`".repeat(*n), lang)); for l in body { out.push(l.clone()); } out.push(format!("{}{}", "`".repeat(*n), tail)); }
+            Elem::Scrut { n, cfg, comments, cmd, tail } => {
                 out.push(format!("{}scrut{}", "`".repeat(*n), cfg.map_or(String::new(), |i| format!(" {{{}}}", CFGS[i]))));
                 for c in comments { out.push(c.clone()); }
                 if let Some((c, conts, body)) = cmd {
@@ -92,7 +97,7 @@ pub fn render(d: &[Elem]) -> Vec<String> {
                     for x in conts { out.push(format!("> {}", x)); }
                     for x in body { match x { BLine::Exp(e) => out.push(e.clone()), BLine::Code(k) => out.push(format!("[{}]", k)) } }
                 }
-                out.push("`".repeat(*n));
+                out.push(format!("{}{}", "`".repeat(*n), tail));
             }
         }
     }
@@ -103,10 +108,10 @@ pub fn ser(d: &[Elem]) -> String {
     let hx = |v: &Vec<String>| if v.is_empty() { "_".to_string() } else { v.iter().map(|x| hex(x.as_bytes())).collect::<Vec<_>>().join(",") };
     d.iter().map(|e| match e {
         Elem::Front(i) => format!("F{}", i), Elem::Prose(p) => format!("P{}", hex(p.as_bytes())), Elem::Heading(k, t) => format!("H{}{}", k, hex(t.as_bytes())), Elem::Blank => "B".to_string(),
-        Elem::Foreign(n, lang, body) => format!("V{}{}/{}", n, hex(lang.as_bytes()), hx(body)),
-        Elem::Scrut { n, cfg, comments, cmd } => format!("S{}{}/{}/{}", n, cfg.map_or("-".to_string(), |i| i.to_string()), hx(comments),
+        Elem::Foreign(n, lang, body, tail) => format!("V{}{}/{}/{}", n, hex(lang.as_bytes()), hx(body), hex(tail.as_bytes())),
+        Elem::Scrut { n, cfg, comments, cmd, tail } => format!("S{}{}/{}/{}/{}", n, cfg.map_or("-".to_string(), |i| i.to_string()), hx(comments),
             match cmd { None => "~".to_string(), Some((c, conts, body)) => format!("{}{}/{}", hex(c.as_bytes()), conts.iter().map(|x| format!(",{}", hex(x.as_bytes()))).collect::<String>(),
-                if body.is_empty() { "_".to_string() } else { body.iter().map(|x| match x { BLine::Exp(e) => format!("E{}", hex(e.as_bytes())), BLine::Code(k) => format!("N{}", k) }).collect::<Vec<_>>().join(",") }) }),
+                if body.is_empty() { "_".to_string() } else { body.iter().map(|x| match x { BLine::Exp(e) => format!("E{}", hex(e.as_bytes())), BLine::Code(k) => format!("N{}", k) }).collect::<Vec<_>>().join(",") }) }, hex(tail.as_bytes())),
     }).collect::<Vec<_>>().join(";")
 }
 pub fn join_lines(r: &mut Rng, lines: &[String]) -> String {
